@@ -66,6 +66,8 @@ type BaseInSession struct {
 
 	sessionStat base.BasicSessionStat
 
+	udpRtpMu sync.Mutex // serialises the udp rtp read goroutines of the tracks, see onReadRtpPacket
+
 	mu              sync.Mutex
 	sdpCtx          sdp.LogicContext // const after set
 	avPacketQueue   *AvPacketQueue
@@ -290,7 +292,13 @@ func (session *BaseInSession) onReadRtpPacket(b []byte, rAddr *net.UDPAddr, err 
 		return true
 	}
 
+	// every track has its own udp connection and read goroutine, but handleRtpPacket dispatches a packet by its
+	// payload type, not by the socket it arrived on: a packet of the video track that reaches the audio port (a stale
+	// sender on a reused port, a peer that multiplexes) was fed to the video unpacker concurrently with the video
+	// goroutine. The rtp goroutines of one session take turns.
+	session.udpRtpMu.Lock()
 	_ = session.handleRtpPacket(b)
+	session.udpRtpMu.Unlock()
 	return true
 }
 
